@@ -453,8 +453,8 @@ impl Default for PublicationMetrics {
 }
 impl vstd::std_specs::ops::AddAssignSpecImpl for PublicationMetrics {
     open spec fn obeys_add_assign_spec() -> bool { false }
-    open spec fn add_assign_req(self, rhs: PublicationMetrics) -> bool { true }
-    uninterp spec fn add_assign_spec(self, rhs: PublicationMetrics) -> PublicationMetrics;
+    open spec fn add_assign_req(&self, rhs: PublicationMetrics) -> bool { true }
+    uninterp spec fn add_assign_spec(&self, rhs: PublicationMetrics) -> &PublicationMetrics;
 }
 impl std::ops::AddAssign for PublicationMetrics {
     #[verifier::external_body]
@@ -535,16 +535,167 @@ impl<'a, P: ProcessRun> Run<'a, P> {
     fn run_failed(&self, err: RunFailed) { unimplemented!() }
 }
 impl<'a, P: ProcessRun> PubPoint<'a, P> {
-    // PubPoint::process_collected (engine.rs:731). ASSUMED here; nothing is
-    // promised about the processor that comes back after an aborted update:
-    // the object closure may have fed it objects of the abandoned manifest.
+    // PubPoint::validate_collected_manifest (engine.rs:900): ASSUMED here, proved in unit
+    // manifest_policy (accepted = decoded, validated under this CA, CRL listed / hash-checked /
+    // signed by the CA key, manifest EE certificate not revoked).
     #[verifier::external_body]
-    fn process_collected(self, collector: CollRepository, store: &mut StoredPoint, metrics: &mut RunMetrics)
-        -> (r: Result<Result<Vec<CaTask<P::PubPoint>>, Self>, RunFailed>)
-        requires self.processor.log() == Seq::<Item>::empty(),
+    fn validate_collected_manifest(&mut self, manifest_bytes: Bytes, repository: &CollRepository)
+        -> (r: Result<Option<ValidPointManifest>, RunFailed>)
         ensures
-            r matches Ok(Err(this)) ==> this.run == self.run && this.cert == self.cert,
-            r matches Ok(Ok(tasks)) ==> forall|i: int| 0 <= i < tasks@.len() ==>
-                child_ok(#[trigger] tasks@[i], *self.cert, self.run.validation.max_ca_depth),
+            final(self).run == old(self).run, final(self).cert == old(self).cert,
+            final(self).repository_index == old(self).repository_index,
+            final(self).processor == old(self).processor,
+            r matches Ok(Some(m)) ==> mft_ok(&m, &**old(self).cert) && m.manifest_bytes == manifest_bytes,
+    { unimplemented!() }
+
+    // PubPoint::check_collected_is_newer (engine.rs:982): ASSUMED frame; its result is C05 (unit newer).
+    #[verifier::external_body]
+    fn check_collected_is_newer(&mut self, collected: &ValidPointManifest, stored: &mut StoredPoint)
+        -> (r: Result<bool, Failed>)
+        ensures
+            final(self).run == old(self).run, final(self).cert == old(self).cert,
+            final(self).repository_index == old(self).repository_index,
+            final(self).processor == old(self).processor,
+    { unimplemented!() }
+}
+
+// ================================================================ collected path
+#[verifier::external_body] pub struct MftItem { _opaque: () }            // rpki FileAndHash<Bytes, Bytes>
+#[verifier::external_body] pub struct MftIter { _opaque: () }            // rpki FileListIter
+#[verifier::external_body] pub struct DigestAlgorithm { _opaque: () }
+#[verifier::external_body] pub struct HashMismatch { _opaque: () }
+#[verifier::external_body] pub struct AsciiError { _opaque: () }
+#[verifier::external_body] #[derive(Debug)] pub struct UriError { _opaque: () }
+#[verifier::external_body] pub struct ThreadRng { _opaque: () }
+
+impl PartialEqSpecImpl for Bytes {
+    open spec fn obeys_eq_spec() -> bool { true }
+    open spec fn eq_spec(&self, other: &Bytes) -> bool { *self == *other }
+}
+impl PartialEq for Bytes {
+    #[verifier::external_body]
+    fn eq(&self, other: &Self) -> bool { unimplemented!() }
+}
+
+// ---- manifest content
+impl MftItem {
+    pub uninterp spec fn file_spec(&self) -> Bytes;
+    pub uninterp spec fn hash_spec(&self) -> Bytes;
+    #[verifier::external_body]
+    pub fn file(&self) -> (r: &Bytes) ensures *r == self.file_spec() { unimplemented!() }
+    #[verifier::external_body]
+    pub fn hash(&self) -> (r: &Bytes) ensures *r == self.hash_spec() { unimplemented!() }
+}
+impl ManifestContent {
+    // `item` is an entry of this manifest's file list
+    pub uninterp spec fn lists(&self, item: MftItem) -> bool;
+    pub uninterp spec fn alg_spec(&self) -> DigestAlgorithm;
+    #[verifier::external_body]
+    pub fn iter(&self) -> (r: MftIter)
+        ensures r.of() == *self,
+    { unimplemented!() }
+    #[verifier::external_body]
+    pub fn file_hash_alg(&self) -> (r: DigestAlgorithm) ensures r == self.alg_spec() { unimplemented!() }
+}
+impl MftIter {
+    pub uninterp spec fn of(&self) -> ManifestContent;
+    // Iterator::collect::<Vec<_>>() of the file list iterator
+    #[verifier::external_body]
+    pub fn collect(self) -> (r: Vec<MftItem>)
+        ensures forall|i: int| 0 <= i < r@.len() ==> self.of().lists(#[trigger] r@[i]),
+    { unimplemented!() }
+}
+// rand::seq::SliceRandom::shuffle: a permutation
+pub trait SliceRandom {
+    fn shuffle(&mut self, rng: &mut ThreadRng);
+}
+impl SliceRandom for Vec<MftItem> {
+    #[verifier::external_body]
+    fn shuffle(&mut self, rng: &mut ThreadRng)
+        ensures
+            final(self)@.to_multiset() == old(self)@.to_multiset(),
+            // (a consequence of being a permutation, stated for the solver)
+            final(self)@.len() == old(self)@.len(),
+            forall|i: int| 0 <= i < final(self)@.len() ==> old(self)@.contains(#[trigger] final(self)@[i]),
+    { unimplemented!() }
+}
+#[verifier::external_body]
+pub fn rand_rng() -> (r: ThreadRng) { unimplemented!() }
+
+// ---- manifest hash (C01: "listed with a matching hash")
+pub uninterp spec fn hash_ok(hash: Bytes, alg: DigestAlgorithm, content: Bytes) -> bool;
+impl ManifestHash {
+    pub uninterp spec fn hash_spec(&self) -> Bytes;
+    pub uninterp spec fn alg_spec(&self) -> DigestAlgorithm;
+    #[verifier::external_body]
+    pub fn new(hash: Bytes, algorithm: DigestAlgorithm) -> (r: ManifestHash)
+        ensures r.hash_spec() == hash, r.alg_spec() == algorithm,
+    { unimplemented!() }
+    #[verifier::external_body]
+    pub fn verify(&self, t: &Bytes) -> (r: Result<(), HashMismatch>)
+        ensures r is Ok <==> hash_ok(self.hash_spec(), self.alg_spec(), *t),
+    { unimplemented!() }
+}
+
+// ---- names and URIs
+// rpki's manifest decoder admits only RFC 9286 file names, and those join to a URI
+pub uninterp spec fn join_spec(base: RsyncUri, name: Bytes) -> RsyncUri;
+// crate::utils::str::str_from_ascii (takes &[u8]; here applied to &Bytes, deref coercion)
+#[verifier::external_body] pub struct AsciiName { _opaque: () }
+impl AsciiName {
+    pub uninterp spec fn bytes_spec(&self) -> Bytes;
+    // <str as AsRef<[u8]>>::as_ref
+    #[verifier::external_body]
+    pub fn as_ref(&self) -> (r: &AsciiName) ensures r == self { unimplemented!() }
+}
+#[verifier::external_body]
+pub fn str_from_ascii(src: &Bytes) -> (r: Result<&AsciiName, AsciiError>)
+    ensures r matches Ok(n) ==> n.bytes_spec() == *src,
+{ unimplemented!() }
+impl RsyncUri {
+    #[verifier::external_body]
+    pub fn join(&self, path: &AsciiName) -> (r: Result<RsyncUri, UriError>)
+        // Ok for every name the manifest decoder admits (paper step: FileAndHash::validate_file_name)
+        ensures r is Ok, r->Ok_0 == join_spec(*self, path.bytes_spec()),
+    { unimplemented!() }
+}
+
+// ---- collector / store
+pub uninterp spec fn repo_load_failed(r: &CollRepository, uri: &RsyncUri) -> bool;
+impl<'a> CollRepository<'a> {
+    #[verifier::external_body]
+    pub fn load_object(&self, uri: &RsyncUri) -> (r: Result<Option<Bytes>, RunFailed>)
+        ensures r is Err ==> repo_load_failed(self, uri),
+    { unimplemented!() }
+}
+impl StoredManifest {
+    #[verifier::external_body]
+    pub fn new(ee_cert: &ResourceCert, manifest: &ManifestContent, ca_cert: &CaCert,
+               manifest_bytes: Bytes, crl_uri: RsyncUri, crl: Bytes) -> (r: StoredManifest)
+    { unimplemented!() }
+}
+
+impl StoredPoint {
+    // store::StoredPoint::update (store.rs:959) with the object closure of
+    // PubPoint::process_collected passed as its captured variables (R17).
+    // ASSUMED generator rule: `update` calls the closure repeatedly and touches
+    // the captured state in no other way, so an invariant of the closure
+    // (proved for PubPoint::process_collected_object) holds afterwards.
+    #[verifier::external_body]
+    fn update<'a, P: ProcessRun>(
+        &mut self, store: &Store, manifest: StoredManifest,
+        this: &mut PubPoint<'a, P>, items: &mut std::vec::IntoIter<MftItem>,
+        collected: &mut ValidPointManifest, collector: &CollRepository,
+        ca_tasks: &mut Vec<CaTask<P::PubPoint>>, point_ok: &mut bool,
+    ) -> (r: Result<(), UpdateError>)
+        requires
+            gen_inv(old(this), old(collected), old(ca_tasks)@, old(this), old(collected)),
+            items_listed((*old(items)).remaining(), old(collected)),
+            (*old(items)).obeys_prophetic_iter_laws(),
+        ensures
+            // (claimed for Ok only: after an abandoned or failed update nothing is known)
+            r is Ok ==> gen_inv(final(this), final(collected), final(ca_tasks)@, old(this), old(collected)),
+            *final(point_ok) == *old(point_ok),
+            final(this).same_ctx(old(this)),
     { unimplemented!() }
 }
